@@ -61,8 +61,12 @@ def main():
 
         def fake_open(path, flags="r", *a, **kw):
             fd = real_open(path, flags, *a, **kw)
-            return Handle(fd) if "w" in flags else fd
-        pyben.api.open = fake_open
+            writing = isinstance(flags, str) and any(c in flags for c in "wa+x")
+            inside = isinstance(path, (str, bytes, os.PathLike)) and \
+                os.path.abspath(os.fspath(path)).startswith(os.getcwd())
+            return Handle(fd) if writing and inside else fd
+        import builtins
+        builtins.open = fake_open      # every module that writes through open() is covered
     raised = None
     with effects.traced(on_event=on_event) as tr:
         try:
